@@ -37,6 +37,7 @@ def run(rep, tier):
     entry_shape(rep, F)
     tie_break(rep, F)
     graham_comparator(rep, F)
+    farthest_key(rep, F)
 
 
 def side_tests(rep, F):
@@ -248,3 +249,93 @@ def graham_comparator(rep, F):
             rep.bad("R8.5", "comparator", "with pivot (0,0), q=%s, r=%s the comparator says %s, the counter-clockwise / nearer-first order says %s" % (fmt(q), fmt(r), gv, want), where=cmp_cl.loc())
             return
     rep.ok("R8.5", "comparator[%d witnesses, %d rows]" % (n, len(paths)))
+
+
+def farthest_key(rep, F):
+    """R8.6: the key of quick hull's farthest-point search is cross(b - a, pt - a), computed from coordinate DIFFERENCES with the segment's
+    start: p_orth . (pt - a) with p_orth = (a.y - b.y, b.x - a.x).  Over the reals adding the constant p_orth . a changes nothing, in floats
+    it destroys the selection for coordinates far from the origin (the property quantifies over exactly those inputs)."""
+    from ..memberfold import subterms
+    from ..poly import from_term, P, sym
+    rep.rule("R8.6", "quick hull farthest-point key = p_orth . (pt - p_a) with p_orth = (a.y - b.y, b.x - a.x): the candidate's coordinates enter only through differences with p_a")
+    try:
+        fn = F.one(r"^%sqhull::hull_set$" % CH, crates=("geo",))
+        ps = opaque(F, loop_bound=1).run(fn)
+    except (KeyError, Unanalysable) as e:
+        rep.bad("R8.6", "anchor", str(e))
+        return
+    keyc = None
+    for g in F.closures_of(fn):
+        for q in opaque(F).run(g):
+            if q.kind == "ret" and q.ret and q.ret[0] == "tuple" and len(q.ret[1]) == 2 and bare(q.ret[1][1]) == "a2" and not q.pc:
+                keyc = (g, q.ret[1][0])
+    if keyc is None:
+        rep.bad("R8.6", "shape", "the (key, point) map closure of the farthest-point search was not found", where=fn.loc())
+        return
+    g, key = keyc
+    caps = None
+    short_name = g.path.rsplit("::", 1)[-1]
+    for p in ps:
+        terms = [t for t, _ in p.pc] + [c[2] for c in calls_of(p)]
+        for t in terms:
+            for s in subterms(t, []):
+                if s and s[0] == "closure" and str(s[1]).endswith(short_name):
+                    caps = s[2]
+    if caps is None:
+        rep.bad("R8.6", "shape", "the creation of the key closure was not found in hull_set", where=fn.loc())
+        return
+    cap_s = [bare(c) for c in caps]
+    ks = bare(key)
+    # substitute the captures into the key
+    full = ks
+    for i, c in sorted(enumerate(cap_s), key=lambda x: -x[0]):
+        full = full.replace("a1.%d" % i, "(" + c + ")")
+    want = "add(mul((sub(a1.y, a2.y)), sub(a2.x, (a1.x))), mul((sub(a2.x, a1.x)), sub(a2.y, (a1.y))))"
+    # the closure's own a2 (candidate point) must be told apart from hull_set's a2 (p_b): rename the candidate first
+    ks2 = ks.replace("a2.x", "PT.x").replace("a2.y", "PT.y")
+    full = ks2
+    for i, c in sorted(enumerate(cap_s), key=lambda x: -x[0]):
+        full = full.replace("a1.%d" % i, "(" + c + ")")
+    want = "add(mul((sub(a1.y, a2.y)), sub(PT.x, (a1.x))), mul((sub(a2.x, a1.x)), sub(PT.y, (a1.y))))"
+    # another way of writing it: every PT coordinate must occur only inside a difference with an end point of the segment, and the value
+    # must be a positive multiple of cross(b - a, pt - a) (checked on integer samples of the extracted term, exact arithmetic)
+    import re as _re
+    import random
+    bare_pt = _re.sub(r"sub\(PT\.([xy]), \(?a[12]\.\1\)?\)", "D", full)
+    if "PT." in bare_pt:
+        rep.bad("R8.6", "key", "the farthest-point key is %s: the candidate's raw coordinates enter the products instead of their differences with the segment start, so for "
+                "coordinates far from the origin rounding decides which point is `farthest` and a non-extreme point can become a hull vertex" % full[:200], where=g.loc())
+        return
+
+    class Arith(Evaluator):
+        def call(self, t):
+            m = t[1].rsplit("::", 1)[-1]
+            if m in ("sub", "add", "mul") and len(t[2]) == 2:
+                a, b = self.ev(t[2][0]), self.ev(t[2][1])
+                return a - b if m == "sub" else a + b if m == "add" else a * b
+            if m == "neg":
+                return -self.ev(t[2][0])
+            return Evaluator.call(self, t)
+    rnd = random.Random(8)
+    ratios = set()
+    try:
+        for _ in range(24):
+            a, b, pt = (C(rnd.randint(-9, 9), rnd.randint(-9, 9)) for _ in range(3))
+            outer = Arith(F, {("arg", 1): a, ("arg", 2): b})
+            capv = [outer.ev(c) for c in caps]
+            inner = Arith(F, {("arg", 1): {str(i): v for i, v in enumerate(capv)}, ("arg", 2): pt})
+            got = inner.ev(key)
+            want_v = (b["x"] - a["x"]) * (pt["y"] - a["y"]) - (b["y"] - a["y"]) * (pt["x"] - a["x"])
+            if want_v == 0:
+                if got != 0:
+                    ratios.add("nonzero-at-zero")
+                continue
+            from fractions import Fraction
+            ratios.add(Fraction(got, want_v))
+    except NoModel as e:
+        rep.bad("R8.6", "key:form", "the farthest-point key %s cannot be evaluated (%s)" % (full[:160], e), where=g.loc())
+        return
+    if len(ratios) == 1 and "nonzero-at-zero" not in ratios and list(ratios)[0] > 0:
+        rep.ok("R8.6", "key~cross(b-a,pt-a)", sample=full)
+    else:
+        rep.bad("R8.6", "key:value", "the farthest-point key %s is not a positive multiple of cross(b - a, pt - a)" % full[:200], where=g.loc())
